@@ -477,6 +477,16 @@ def stack_blocks(ctx, rr):
                 bad = [a for a in defs if not (isinstance(a.value, ast.Call))] or defs
                 rr.fail(ctx.finding('R-STACK-BLOCKS', u, bad[0], 'the node `%s` that %s reads blocks into is not created by the traversal itself (%s): traversals advanced in '
                                     'turns share it and follow each other\'s pointers' % (r, u.qual, ast.unparse(bad[0].value)[:40])))
+    # a trie node object is obtained by reading its block: a copy made from another node's packed block has neither the tail of a
+    # multi-block stem nor the exists mark
+    for u in P.units:
+        for c in P.own(u, ast.Call):
+            if any(t.cls == 'LRUTrie' and t.name == 'node' for t in P.targets(c)) or any(t.cls == TRIE_NODE and t.name == '__init__' for t in P.targets(c)):
+                for k in c.keywords:
+                    if k.arg == 'data' and any(isinstance(x, ast.Call) and isinstance(x.func, ast.Attribute) and x.func.attr == 'pack' for x in ast.walk(k.value)):
+                        rr.ob(ctx.where(u, c), 'trie nodes are read from their block, not cloned from packed data', ok=False)
+                        rr.fail(ctx.finding('R-STACK-BLOCKS', u, c, '%s clones a trie node from `%s`: the packed block carries neither the tail blocks of a stem longer than one block nor '
+                                            'the block number, so the clone reports a truncated stem' % (u.qual, ast.unparse(k.value)[:40])))
     rr.require(nst, 3, 'explicit traversal stacks')
 
 
